@@ -892,7 +892,7 @@ func (c *GlobalConfig) UnmarshalYAML(unmarshal func(any) error) error {
 type Route struct {
 	Receiver string `yaml:"receiver,omitempty" json:"receiver,omitempty"`
 
-	GroupByStr []string          `yaml:"group_by,omitempty" json:"group_by,omitempty"`
+	GroupByStr GroupByList       `yaml:"group_by,omitempty" json:"group_by,omitempty"`
 	GroupBy    []model.LabelName `yaml:"-" json:"-"`
 	GroupByAll bool              `yaml:"-" json:"-"`
 	// Deprecated. Remove before v1.0 release.
@@ -915,6 +915,14 @@ type Route struct {
 	// not available; use notification templates for reason-dependent content.
 	Labels model.LabelSet `yaml:"labels,omitempty" json:"labels,omitempty"`
 }
+
+// GroupByList is the group_by list of a route as written in the configuration.
+// An explicitly empty list is meaningful (it overrides the grouping inherited
+// from the parent route), so only an unset list is omitted when marshaling.
+type GroupByList []string
+
+// IsZero implements yaml.IsZeroer.
+func (l GroupByList) IsZero() bool { return l == nil }
 
 // UnmarshalYAML implements the yaml.Unmarshaler interface for Route.
 func (r *Route) UnmarshalYAML(unmarshal func(any) error) error {
